@@ -15,7 +15,7 @@ def one(sid: str) -> tuple[str, bool, str]:
     if sid.startswith("/"):  # a not-yet-kept seed in an agent's worktree: /tmp/wt_Cxx/_seed/k
         d = sid
         import re as _re
-        prop = _re.search(r"/(?:wt|r2|r3|r4|r5)_(C\d\d)/", sid).group(1)
+        prop = _re.search(r"/(?:wt|r2|r3|r4|r5|r6)_(C\d\d)/", sid).group(1)
     else:
         d = os.path.join(SEEDED, sid)
         prop = json.load(open(os.path.join(d, "meta.json")))["property"]
@@ -42,8 +42,8 @@ def main() -> int:
         import glob
         kept = set(ids)
         import re as _re
-        for d in sorted(glob.glob("/tmp/wt_C*/_seed/[0-9]*")) + sorted(glob.glob("/tmp/r2_C*/_seed/[0-9]*")) + sorted(glob.glob("/tmp/r3_C*/_seed/[0-9]*")) + sorted(glob.glob("/tmp/r4_C*/_seed/[0-9]*")) + sorted(glob.glob("/tmp/r5_C*/_seed/[0-9]*")):
-            k = _re.search(r"_(C\d\d)/", d).group(1) + ("-r2-" if "/r2_" in d else "-r3-" if "/r3_" in d else "-r4-" if "/r4_" in d else "-r5-" if "/r5_" in d else "-") + os.path.basename(d)
+        for d in sorted(glob.glob("/tmp/wt_C*/_seed/[0-9]*")) + sorted(glob.glob("/tmp/r2_C*/_seed/[0-9]*")) + sorted(glob.glob("/tmp/r3_C*/_seed/[0-9]*")) + sorted(glob.glob("/tmp/r4_C*/_seed/[0-9]*")) + sorted(glob.glob("/tmp/r5_C*/_seed/[0-9]*")) + sorted(glob.glob("/tmp/r6_C*/_seed/[0-9]*")):
+            k = _re.search(r"_(C\d\d)/", d).group(1) + ("-r2-" if "/r2_" in d else "-r3-" if "/r3_" in d else "-r4-" if "/r4_" in d else "-r5-" if "/r5_" in d else "-r6-" if "/r6_" in d else "-") + os.path.basename(d)
             if os.path.isfile(os.path.join(d, "patch.diff")) and k not in kept and (not sel or any(s in k for s in sel)):
                 ids.append(d)
     bad = declined = 0
